@@ -20,12 +20,41 @@ NOT_DECIDED = ('that the per-piece lengths partition the content and that the by
 
 
 def extractor_fn(F):
+    """the function that creates the output files and writes them, with the private helpers of its own type spliced in
+    (so that moving a block of it into a helper method does not change what the rules see)"""
+    if getattr(F, '_c03_extractor', None) is not None:
+        return F._c03_extractor
     out = []
     for f in F.user_fns():
-        if any((f.blocks[bb]['t'].get('name') == 'write_all') for bb in mirq.real_calls(f)) and \
-                any((f.blocks[bb]['t'].get('callee') or '').endswith('File::create') for bb in mirq.real_calls(f)):
-            out.append(f)
-    return C.one(out, 'function that creates files and writes them (the extractor)')
+        if f.self_ty is None:
+            continue
+        sp = mirq.inline_fn(F, f, lambda g, f=f: g.self_ty == f.self_ty, depth=2)
+        if any((sp.blocks[bb]['t'].get('name') == 'write_all') for bb in mirq.real_calls(sp)) and \
+                any((sp.blocks[bb]['t'].get('callee') or '').endswith('File::create') for bb in mirq.real_calls(sp)):
+            out.append((f, sp))
+    if len(out) > 1:
+        # a helper that itself creates and writes is part of its caller
+        callees = {t for f, sp in out for b, t in C.local_calls(F, f)}
+        out = [(f, sp) for f, sp in out if f.path not in callees]
+    F._c03_extractor = C.one([sp for f, sp in out], 'function that creates files and writes them (the extractor)')
+    return F._c03_extractor
+
+
+def pos_fields(F):
+    """(index_field, offset_field) of the piece position record, named by how its constructor fills them:
+    the quotient pos / piece_length and the remainder pos % piece_length"""
+    P = C.one(C.fns_constructing(F, r'^metainfo::PiecePos$', 'PiecePos'), 'constructor of PiecePos')
+    idx = off = None
+    for bi, si, e in mirq.agg_sites(P, r'^metainfo::PiecePos$'):
+        for n, x in e[4]:
+            x = mirq.init_of(x)
+            if x[0] == 'binop' and x[1] == 'Div':
+                idx = n
+            if x[0] == 'binop' and x[1] == 'Rem':
+                off = n
+    if not idx or not off or idx == off:
+        raise AnchorMissing('piece position is not built as (pos / piece_length, pos % piece_length)')
+    return idx, off
 
 
 def ranges_fn(F):
@@ -42,8 +71,9 @@ def r1(cx, rec):
     for bb in writes:
         e = E.expr_call(bb)
         d = mirq.deps(E, e[2][1])
-        start = any(re.search(r'\.1\.byte_index$', x) for x in d)
-        end = any(re.search(r'\.2\.byte_index$', x) for x in d)
+        IDX, OFF = pos_fields(F)
+        start = any(re.search(r'\.1\.%s$' % OFF, x) for x in d)
+        end = any(re.search(r'\.2\.%s$' % OFF, x) for x in d)
         any_end = any_end or end
         rec.site(E, bb, 'write_all: depends on start offset=%s, end offset=%s' % (start, end))
         rec.need(start, 'write-independent-of-start-offset/' + ('with-end' if end else 'whole'), E, bb,
@@ -75,7 +105,8 @@ def r2(cx, rec):
         # k is either <range>.2.file_index or an element of Range{start: .1.file_index, end: .2.file_index}
         in_range = False
         if k is not None:
-            if re.search(r'\.2\.file_index$', ks):
+            IDX, OFF = pos_fields(F)
+            if re.search(r'\.2\.%s$' % IDX, ks):
                 in_range = True
             else:
                 for x in walk(mirq.init_of(k)):
@@ -85,10 +116,10 @@ def r2(cx, rec):
                        if y[0] == 'agg' and y[2] == 'std::ops::Range']
                 for r in rng:
                     fs = dict(r[4])
-                    if re.search(r'\.1\.file_index$', show(fs.get('start', ('other', '')))) and \
-                            re.search(r'\.2\.file_index$', show(fs.get('end', ('other', '')))):
+                    if re.search(r'\.1\.%s$' % IDX, show(fs.get('start', ('other', '')))) and \
+                            re.search(r'\.2\.%s$' % IDX, show(fs.get('end', ('other', '')))):
                         # the loop variable iterates this range
-                        if any(re.search(r'\.1\.file_index$', z) for z in d):
+                        if any(re.search(r'\.1\.%s$' % IDX, z) for z in d):
                             in_range = True
         rec.site(E, bb, 'opens piece(%s)' % ks[-60:])
         rec.need(okname, 'open-name', E, bb, 'opened file is not hash_to_string(metainfo.piece(k)) + ".piece"')
@@ -145,9 +176,9 @@ def r3(cx, rec):
     for bi, si, e in mirq.agg_sites(P, r'^metainfo::PiecePos$'):
         fields = dict(e[4])
         rec.site(P, bi, show(e)[:200])
-        for name, op in (('file_index', 'Div'), ('byte_index', 'Rem')):
+        for name, op in zip(pos_fields(F), ('Div', 'Rem')):
             x = fields.get(name)
-            ok = x is not None and x[0] == 'binop' and x[1] == op and access_path(x[2]) == 'pos' and \
+            ok = x is not None and x[0] == 'binop' and x[1] == op and C.param_pos(P, x[2]) == 2 and access_path(x[2]) == C.params_of(P)[-1][0] and \
                 (access_path(x[3]) or '') == 'self.piece_length'
             rec.need(ok, 'piece-pos/' + name, P, bi, '%s is %s, expected %s(pos, piece_length)' % (name, show(x)[:80] if x else None, op))
 
